@@ -435,6 +435,15 @@ func scenario(c cfg) {
 				run.Count("window_did_not_close_within_400_segments", 1)
 			} else {
 				run.Count("window_close_events", 1)
+				if r.Chance(1, 3) {
+					// the application enlarges its receive buffer while the window is shut
+					nb := []int{65536, 1 << 18, 1 << 20}[r.Intn(3)]
+					conn.EP.SetSockOpt(tcpip.ReceiveBufferSizeOption(nb))
+					rawpeer.Settle()
+					tr("receive buffer enlarged to %d while the window is closed", nb)
+					run.Count("receive_buffer_enlarged_while_window_closed", 1)
+					checkEmitted(conn.Take(), "after enlarging the receive buffer of a closed window")
+				}
 				readAll()
 				rawpeer.Settle()
 				checkEmitted(conn.Take(), "after draining a closed window")
